@@ -132,5 +132,6 @@ namespace Genq
     sampled response behaves differently. -/
 theorem C19_codec_template_tie :
     Extracted.unmarshalTmpl = CodecSkel.unmarshalTmpl ∧
-    Extracted.unmarshalHelperTmpl = CodecSkel.unmarshalHelperTmpl := ⟨rfl, rfl⟩
+    Extracted.unmarshalHelperTmpl = CodecSkel.unmarshalHelperTmpl ∧
+    Extracted.flattenedFieldsSkeleton = CodecSkel.flattenedFieldsSkeleton := ⟨rfl, rfl, rfl⟩
 end Genq
